@@ -137,6 +137,8 @@ define_language! {
         Flag2(bool, u32) = "flag2",
         Pidx(u32, Slot, AppliedId) = "pidx",
         K() = "kk",
+        // six children: a node with more than sixteen distinct free slots
+        Wide(AppliedId, AppliedId, AppliedId, AppliedId, AppliedId, AppliedId) = "wide",
         N(u32),
     }
 }
@@ -158,6 +160,7 @@ pub static LNEST: LangSig = LangSig {
         OpSig { name: "flag2", fields: &[Fld::P, Fld::P] },
         OpSig { name: "pidx", fields: &[Fld::P, Fld::S, Fld::C(0)] },
         OpSig { name: "kk", fields: &[] },
+        OpSig { name: "wide", fields: &[Fld::C(0), Fld::C(0), Fld::C(0), Fld::C(0), Fld::C(0), Fld::C(0)] },
         OpSig { name: "#num", fields: &[Fld::P] },
     ],
 };
